@@ -795,7 +795,7 @@ namespace sqf { namespace parser { namespace sqf { namespace bison  {
 
   case 3:
 #line 152 "parser.y" // lalr1.cc:859
-    { result = ::sqf::parser::sqf::bison::astnode{}; result.append(yystack_[0].value.as< ::sqf::parser::sqf::bison::astnode > ()); }
+    { result = ::sqf::parser::sqf::bison::astnode{}; result.append(std::move(yystack_[0].value.as< ::sqf::parser::sqf::bison::astnode > ())); }
 #line 800 "parser.tab.cc" // lalr1.cc:859
     break;
 
@@ -807,37 +807,37 @@ namespace sqf { namespace parser { namespace sqf { namespace bison  {
 
   case 5:
 #line 154 "parser.y" // lalr1.cc:859
-    { result = ::sqf::parser::sqf::bison::astnode{}; result.append(yystack_[0].value.as< ::sqf::parser::sqf::bison::astnode > ()); }
+    { result = ::sqf::parser::sqf::bison::astnode{}; result.append(std::move(yystack_[0].value.as< ::sqf::parser::sqf::bison::astnode > ())); }
 #line 812 "parser.tab.cc" // lalr1.cc:859
     break;
 
   case 6:
 #line 156 "parser.y" // lalr1.cc:859
-    { yylhs.value.as< ::sqf::parser::sqf::bison::astnode > () = ::sqf::parser::sqf::bison::astnode{ astkind::STATEMENTS }; yylhs.value.as< ::sqf::parser::sqf::bison::astnode > ().append(yystack_[0].value.as< ::sqf::parser::sqf::bison::astnode > ()); }
+    { yylhs.value.as< ::sqf::parser::sqf::bison::astnode > () = ::sqf::parser::sqf::bison::astnode{ astkind::STATEMENTS }; yylhs.value.as< ::sqf::parser::sqf::bison::astnode > ().append(std::move(yystack_[0].value.as< ::sqf::parser::sqf::bison::astnode > ())); }
 #line 818 "parser.tab.cc" // lalr1.cc:859
     break;
 
   case 7:
 #line 157 "parser.y" // lalr1.cc:859
-    { yylhs.value.as< ::sqf::parser::sqf::bison::astnode > () = yystack_[1].value.as< ::sqf::parser::sqf::bison::astnode > (); }
+    { yylhs.value.as< ::sqf::parser::sqf::bison::astnode > () = std::move(yystack_[1].value.as< ::sqf::parser::sqf::bison::astnode > ()); }
 #line 824 "parser.tab.cc" // lalr1.cc:859
     break;
 
   case 8:
 #line 158 "parser.y" // lalr1.cc:859
-    { yylhs.value.as< ::sqf::parser::sqf::bison::astnode > () = yystack_[2].value.as< ::sqf::parser::sqf::bison::astnode > (); yylhs.value.as< ::sqf::parser::sqf::bison::astnode > ().append(yystack_[0].value.as< ::sqf::parser::sqf::bison::astnode > ()); }
+    { yylhs.value.as< ::sqf::parser::sqf::bison::astnode > () = std::move(yystack_[2].value.as< ::sqf::parser::sqf::bison::astnode > ()); yylhs.value.as< ::sqf::parser::sqf::bison::astnode > ().append(std::move(yystack_[0].value.as< ::sqf::parser::sqf::bison::astnode > ())); }
 #line 830 "parser.tab.cc" // lalr1.cc:859
     break;
 
   case 9:
 #line 160 "parser.y" // lalr1.cc:859
-    { yylhs.value.as< ::sqf::parser::sqf::bison::astnode > () = yystack_[0].value.as< ::sqf::parser::sqf::bison::astnode > (); }
+    { yylhs.value.as< ::sqf::parser::sqf::bison::astnode > () = std::move(yystack_[0].value.as< ::sqf::parser::sqf::bison::astnode > ()); }
 #line 836 "parser.tab.cc" // lalr1.cc:859
     break;
 
   case 10:
 #line 161 "parser.y" // lalr1.cc:859
-    { yylhs.value.as< ::sqf::parser::sqf::bison::astnode > () = yystack_[0].value.as< ::sqf::parser::sqf::bison::astnode > (); }
+    { yylhs.value.as< ::sqf::parser::sqf::bison::astnode > () = std::move(yystack_[0].value.as< ::sqf::parser::sqf::bison::astnode > ()); }
 #line 842 "parser.tab.cc" // lalr1.cc:859
     break;
 
@@ -1005,37 +1005,37 @@ namespace sqf { namespace parser { namespace sqf { namespace bison  {
 
   case 42:
 #line 197 "parser.y" // lalr1.cc:859
-    { yylhs.value.as< ::sqf::parser::sqf::bison::astnode > () = yystack_[0].value.as< ::sqf::parser::sqf::bison::astnode > (); }
+    { yylhs.value.as< ::sqf::parser::sqf::bison::astnode > () = std::move(yystack_[0].value.as< ::sqf::parser::sqf::bison::astnode > ()); }
 #line 1010 "parser.tab.cc" // lalr1.cc:859
     break;
 
   case 43:
 #line 198 "parser.y" // lalr1.cc:859
-    { yylhs.value.as< ::sqf::parser::sqf::bison::astnode > () = yystack_[0].value.as< ::sqf::parser::sqf::bison::astnode > (); }
+    { yylhs.value.as< ::sqf::parser::sqf::bison::astnode > () = std::move(yystack_[0].value.as< ::sqf::parser::sqf::bison::astnode > ()); }
 #line 1016 "parser.tab.cc" // lalr1.cc:859
     break;
 
   case 44:
 #line 200 "parser.y" // lalr1.cc:859
-    { yylhs.value.as< ::sqf::parser::sqf::bison::astnode > () = ::sqf::parser::sqf::bison::astnode{ astkind::EXPRESSION_LIST }; yylhs.value.as< ::sqf::parser::sqf::bison::astnode > ().append(yystack_[0].value.as< ::sqf::parser::sqf::bison::astnode > ()); }
+    { yylhs.value.as< ::sqf::parser::sqf::bison::astnode > () = ::sqf::parser::sqf::bison::astnode{ astkind::EXPRESSION_LIST }; yylhs.value.as< ::sqf::parser::sqf::bison::astnode > ().append(std::move(yystack_[0].value.as< ::sqf::parser::sqf::bison::astnode > ())); }
 #line 1022 "parser.tab.cc" // lalr1.cc:859
     break;
 
   case 45:
 #line 201 "parser.y" // lalr1.cc:859
-    { yylhs.value.as< ::sqf::parser::sqf::bison::astnode > () = yystack_[2].value.as< ::sqf::parser::sqf::bison::astnode > (); yylhs.value.as< ::sqf::parser::sqf::bison::astnode > ().append(yystack_[0].value.as< ::sqf::parser::sqf::bison::astnode > ()); }
+    { yylhs.value.as< ::sqf::parser::sqf::bison::astnode > () = std::move(yystack_[2].value.as< ::sqf::parser::sqf::bison::astnode > ()); yylhs.value.as< ::sqf::parser::sqf::bison::astnode > ().append(std::move(yystack_[0].value.as< ::sqf::parser::sqf::bison::astnode > ())); }
 #line 1028 "parser.tab.cc" // lalr1.cc:859
     break;
 
   case 46:
 #line 203 "parser.y" // lalr1.cc:859
-    { yylhs.value.as< ::sqf::parser::sqf::bison::astnode > () = ::sqf::parser::sqf::bison::astnode{  astkind::CODE, yystack_[2].value.as< tokenizer::token > () }; yylhs.value.as< ::sqf::parser::sqf::bison::astnode > ().append(yystack_[1].value.as< ::sqf::parser::sqf::bison::astnode > ()); }
+    { yylhs.value.as< ::sqf::parser::sqf::bison::astnode > () = ::sqf::parser::sqf::bison::astnode{  astkind::CODE, yystack_[2].value.as< tokenizer::token > () }; yylhs.value.as< ::sqf::parser::sqf::bison::astnode > ().append(std::move(yystack_[1].value.as< ::sqf::parser::sqf::bison::astnode > ())); }
 #line 1034 "parser.tab.cc" // lalr1.cc:859
     break;
 
   case 47:
 #line 204 "parser.y" // lalr1.cc:859
-    { yylhs.value.as< ::sqf::parser::sqf::bison::astnode > () = ::sqf::parser::sqf::bison::astnode{  astkind::CODE, yystack_[3].value.as< tokenizer::token > () }; yylhs.value.as< ::sqf::parser::sqf::bison::astnode > ().append(yystack_[1].value.as< ::sqf::parser::sqf::bison::astnode > ()); }
+    { yylhs.value.as< ::sqf::parser::sqf::bison::astnode > () = ::sqf::parser::sqf::bison::astnode{  astkind::CODE, yystack_[3].value.as< tokenizer::token > () }; yylhs.value.as< ::sqf::parser::sqf::bison::astnode > ().append(std::move(yystack_[1].value.as< ::sqf::parser::sqf::bison::astnode > ())); }
 #line 1040 "parser.tab.cc" // lalr1.cc:859
     break;
 
@@ -1065,469 +1065,469 @@ namespace sqf { namespace parser { namespace sqf { namespace bison  {
 
   case 52:
 #line 211 "parser.y" // lalr1.cc:859
-    { yylhs.value.as< ::sqf::parser::sqf::bison::astnode > () = ::sqf::parser::sqf::bison::astnode{ astkind::ASSIGNMENT_LOCAL, yystack_[2].value.as< tokenizer::token > () }; yylhs.value.as< ::sqf::parser::sqf::bison::astnode > ().append(yystack_[0].value.as< ::sqf::parser::sqf::bison::astnode > ()); }
+    { yylhs.value.as< ::sqf::parser::sqf::bison::astnode > () = ::sqf::parser::sqf::bison::astnode{ astkind::ASSIGNMENT_LOCAL, yystack_[2].value.as< tokenizer::token > () }; yylhs.value.as< ::sqf::parser::sqf::bison::astnode > ().append(std::move(yystack_[0].value.as< ::sqf::parser::sqf::bison::astnode > ())); }
 #line 1070 "parser.tab.cc" // lalr1.cc:859
     break;
 
   case 53:
 #line 212 "parser.y" // lalr1.cc:859
-    { yylhs.value.as< ::sqf::parser::sqf::bison::astnode > () = ::sqf::parser::sqf::bison::astnode{ astkind::ASSIGNMENT, yystack_[1].value.as< tokenizer::token > () }; yylhs.value.as< ::sqf::parser::sqf::bison::astnode > ().append(yystack_[2].value.as< ::sqf::parser::sqf::bison::astnode > ()); yylhs.value.as< ::sqf::parser::sqf::bison::astnode > ().append(yystack_[0].value.as< ::sqf::parser::sqf::bison::astnode > ()); }
+    { yylhs.value.as< ::sqf::parser::sqf::bison::astnode > () = ::sqf::parser::sqf::bison::astnode{ astkind::ASSIGNMENT, yystack_[1].value.as< tokenizer::token > () }; yylhs.value.as< ::sqf::parser::sqf::bison::astnode > ().append(std::move(yystack_[2].value.as< ::sqf::parser::sqf::bison::astnode > ())); yylhs.value.as< ::sqf::parser::sqf::bison::astnode > ().append(std::move(yystack_[0].value.as< ::sqf::parser::sqf::bison::astnode > ())); }
 #line 1076 "parser.tab.cc" // lalr1.cc:859
     break;
 
   case 54:
 #line 214 "parser.y" // lalr1.cc:859
-    { yylhs.value.as< ::sqf::parser::sqf::bison::astnode > () = yystack_[0].value.as< ::sqf::parser::sqf::bison::astnode > (); }
+    { yylhs.value.as< ::sqf::parser::sqf::bison::astnode > () = std::move(yystack_[0].value.as< ::sqf::parser::sqf::bison::astnode > ()); }
 #line 1082 "parser.tab.cc" // lalr1.cc:859
     break;
 
   case 55:
 #line 216 "parser.y" // lalr1.cc:859
-    { yylhs.value.as< ::sqf::parser::sqf::bison::astnode > () = yystack_[0].value.as< ::sqf::parser::sqf::bison::astnode > (); }
+    { yylhs.value.as< ::sqf::parser::sqf::bison::astnode > () = std::move(yystack_[0].value.as< ::sqf::parser::sqf::bison::astnode > ()); }
 #line 1088 "parser.tab.cc" // lalr1.cc:859
     break;
 
   case 56:
 #line 217 "parser.y" // lalr1.cc:859
-    { yylhs.value.as< ::sqf::parser::sqf::bison::astnode > () = ::sqf::parser::sqf::bison::astnode{ astkind::EXP0, yystack_[1].value.as< tokenizer::token > () }; yylhs.value.as< ::sqf::parser::sqf::bison::astnode > ().append(yystack_[2].value.as< ::sqf::parser::sqf::bison::astnode > ()); yylhs.value.as< ::sqf::parser::sqf::bison::astnode > ().append(yystack_[0].value.as< ::sqf::parser::sqf::bison::astnode > ()); }
+    { yylhs.value.as< ::sqf::parser::sqf::bison::astnode > () = ::sqf::parser::sqf::bison::astnode{ astkind::EXP0, yystack_[1].value.as< tokenizer::token > () }; yylhs.value.as< ::sqf::parser::sqf::bison::astnode > ().append(std::move(yystack_[2].value.as< ::sqf::parser::sqf::bison::astnode > ())); yylhs.value.as< ::sqf::parser::sqf::bison::astnode > ().append(std::move(yystack_[0].value.as< ::sqf::parser::sqf::bison::astnode > ())); }
 #line 1094 "parser.tab.cc" // lalr1.cc:859
     break;
 
   case 57:
 #line 218 "parser.y" // lalr1.cc:859
-    { yylhs.value.as< ::sqf::parser::sqf::bison::astnode > () = ::sqf::parser::sqf::bison::astnode{ astkind::EXP0, yystack_[1].value.as< tokenizer::token > () }; yylhs.value.as< ::sqf::parser::sqf::bison::astnode > ().append(yystack_[2].value.as< ::sqf::parser::sqf::bison::astnode > ()); yylhs.value.as< ::sqf::parser::sqf::bison::astnode > ().append(yystack_[0].value.as< ::sqf::parser::sqf::bison::astnode > ()); }
+    { yylhs.value.as< ::sqf::parser::sqf::bison::astnode > () = ::sqf::parser::sqf::bison::astnode{ astkind::EXP0, yystack_[1].value.as< tokenizer::token > () }; yylhs.value.as< ::sqf::parser::sqf::bison::astnode > ().append(std::move(yystack_[2].value.as< ::sqf::parser::sqf::bison::astnode > ())); yylhs.value.as< ::sqf::parser::sqf::bison::astnode > ().append(std::move(yystack_[0].value.as< ::sqf::parser::sqf::bison::astnode > ())); }
 #line 1100 "parser.tab.cc" // lalr1.cc:859
     break;
 
   case 58:
 #line 219 "parser.y" // lalr1.cc:859
-    { yylhs.value.as< ::sqf::parser::sqf::bison::astnode > () = ::sqf::parser::sqf::bison::astnode{ astkind::EXP0, yystack_[1].value.as< tokenizer::token > () }; yylhs.value.as< ::sqf::parser::sqf::bison::astnode > ().append(yystack_[2].value.as< ::sqf::parser::sqf::bison::astnode > ()); yylhs.value.as< ::sqf::parser::sqf::bison::astnode > ().append(yystack_[0].value.as< ::sqf::parser::sqf::bison::astnode > ()); }
+    { yylhs.value.as< ::sqf::parser::sqf::bison::astnode > () = ::sqf::parser::sqf::bison::astnode{ astkind::EXP0, yystack_[1].value.as< tokenizer::token > () }; yylhs.value.as< ::sqf::parser::sqf::bison::astnode > ().append(std::move(yystack_[2].value.as< ::sqf::parser::sqf::bison::astnode > ())); yylhs.value.as< ::sqf::parser::sqf::bison::astnode > ().append(std::move(yystack_[0].value.as< ::sqf::parser::sqf::bison::astnode > ())); }
 #line 1106 "parser.tab.cc" // lalr1.cc:859
     break;
 
   case 59:
 #line 220 "parser.y" // lalr1.cc:859
-    { yylhs.value.as< ::sqf::parser::sqf::bison::astnode > () = ::sqf::parser::sqf::bison::astnode{ astkind::EXP0, yystack_[1].value.as< tokenizer::token > () }; yylhs.value.as< ::sqf::parser::sqf::bison::astnode > ().append(yystack_[2].value.as< ::sqf::parser::sqf::bison::astnode > ()); yylhs.value.as< ::sqf::parser::sqf::bison::astnode > ().append(yystack_[0].value.as< ::sqf::parser::sqf::bison::astnode > ()); }
+    { yylhs.value.as< ::sqf::parser::sqf::bison::astnode > () = ::sqf::parser::sqf::bison::astnode{ astkind::EXP0, yystack_[1].value.as< tokenizer::token > () }; yylhs.value.as< ::sqf::parser::sqf::bison::astnode > ().append(std::move(yystack_[2].value.as< ::sqf::parser::sqf::bison::astnode > ())); yylhs.value.as< ::sqf::parser::sqf::bison::astnode > ().append(std::move(yystack_[0].value.as< ::sqf::parser::sqf::bison::astnode > ())); }
 #line 1112 "parser.tab.cc" // lalr1.cc:859
     break;
 
   case 60:
 #line 222 "parser.y" // lalr1.cc:859
-    { yylhs.value.as< ::sqf::parser::sqf::bison::astnode > () = yystack_[0].value.as< ::sqf::parser::sqf::bison::astnode > (); }
+    { yylhs.value.as< ::sqf::parser::sqf::bison::astnode > () = std::move(yystack_[0].value.as< ::sqf::parser::sqf::bison::astnode > ()); }
 #line 1118 "parser.tab.cc" // lalr1.cc:859
     break;
 
   case 61:
 #line 223 "parser.y" // lalr1.cc:859
-    { yylhs.value.as< ::sqf::parser::sqf::bison::astnode > () = ::sqf::parser::sqf::bison::astnode{ astkind::EXP1, yystack_[1].value.as< tokenizer::token > () }; yylhs.value.as< ::sqf::parser::sqf::bison::astnode > ().append(yystack_[2].value.as< ::sqf::parser::sqf::bison::astnode > ()); yylhs.value.as< ::sqf::parser::sqf::bison::astnode > ().append(yystack_[0].value.as< ::sqf::parser::sqf::bison::astnode > ()); }
+    { yylhs.value.as< ::sqf::parser::sqf::bison::astnode > () = ::sqf::parser::sqf::bison::astnode{ astkind::EXP1, yystack_[1].value.as< tokenizer::token > () }; yylhs.value.as< ::sqf::parser::sqf::bison::astnode > ().append(std::move(yystack_[2].value.as< ::sqf::parser::sqf::bison::astnode > ())); yylhs.value.as< ::sqf::parser::sqf::bison::astnode > ().append(std::move(yystack_[0].value.as< ::sqf::parser::sqf::bison::astnode > ())); }
 #line 1124 "parser.tab.cc" // lalr1.cc:859
     break;
 
   case 62:
 #line 224 "parser.y" // lalr1.cc:859
-    { yylhs.value.as< ::sqf::parser::sqf::bison::astnode > () = ::sqf::parser::sqf::bison::astnode{ astkind::EXP1, yystack_[1].value.as< tokenizer::token > () }; yylhs.value.as< ::sqf::parser::sqf::bison::astnode > ().append(yystack_[2].value.as< ::sqf::parser::sqf::bison::astnode > ()); yylhs.value.as< ::sqf::parser::sqf::bison::astnode > ().append(yystack_[0].value.as< ::sqf::parser::sqf::bison::astnode > ()); }
+    { yylhs.value.as< ::sqf::parser::sqf::bison::astnode > () = ::sqf::parser::sqf::bison::astnode{ astkind::EXP1, yystack_[1].value.as< tokenizer::token > () }; yylhs.value.as< ::sqf::parser::sqf::bison::astnode > ().append(std::move(yystack_[2].value.as< ::sqf::parser::sqf::bison::astnode > ())); yylhs.value.as< ::sqf::parser::sqf::bison::astnode > ().append(std::move(yystack_[0].value.as< ::sqf::parser::sqf::bison::astnode > ())); }
 #line 1130 "parser.tab.cc" // lalr1.cc:859
     break;
 
   case 63:
 #line 225 "parser.y" // lalr1.cc:859
-    { yylhs.value.as< ::sqf::parser::sqf::bison::astnode > () = ::sqf::parser::sqf::bison::astnode{ astkind::EXP1, yystack_[1].value.as< tokenizer::token > () }; yylhs.value.as< ::sqf::parser::sqf::bison::astnode > ().append(yystack_[2].value.as< ::sqf::parser::sqf::bison::astnode > ()); yylhs.value.as< ::sqf::parser::sqf::bison::astnode > ().append(yystack_[0].value.as< ::sqf::parser::sqf::bison::astnode > ()); }
+    { yylhs.value.as< ::sqf::parser::sqf::bison::astnode > () = ::sqf::parser::sqf::bison::astnode{ astkind::EXP1, yystack_[1].value.as< tokenizer::token > () }; yylhs.value.as< ::sqf::parser::sqf::bison::astnode > ().append(std::move(yystack_[2].value.as< ::sqf::parser::sqf::bison::astnode > ())); yylhs.value.as< ::sqf::parser::sqf::bison::astnode > ().append(std::move(yystack_[0].value.as< ::sqf::parser::sqf::bison::astnode > ())); }
 #line 1136 "parser.tab.cc" // lalr1.cc:859
     break;
 
   case 64:
 #line 226 "parser.y" // lalr1.cc:859
-    { yylhs.value.as< ::sqf::parser::sqf::bison::astnode > () = ::sqf::parser::sqf::bison::astnode{ astkind::EXP1, yystack_[1].value.as< tokenizer::token > () }; yylhs.value.as< ::sqf::parser::sqf::bison::astnode > ().append(yystack_[2].value.as< ::sqf::parser::sqf::bison::astnode > ()); yylhs.value.as< ::sqf::parser::sqf::bison::astnode > ().append(yystack_[0].value.as< ::sqf::parser::sqf::bison::astnode > ()); }
+    { yylhs.value.as< ::sqf::parser::sqf::bison::astnode > () = ::sqf::parser::sqf::bison::astnode{ astkind::EXP1, yystack_[1].value.as< tokenizer::token > () }; yylhs.value.as< ::sqf::parser::sqf::bison::astnode > ().append(std::move(yystack_[2].value.as< ::sqf::parser::sqf::bison::astnode > ())); yylhs.value.as< ::sqf::parser::sqf::bison::astnode > ().append(std::move(yystack_[0].value.as< ::sqf::parser::sqf::bison::astnode > ())); }
 #line 1142 "parser.tab.cc" // lalr1.cc:859
     break;
 
   case 65:
 #line 228 "parser.y" // lalr1.cc:859
-    { yylhs.value.as< ::sqf::parser::sqf::bison::astnode > () = yystack_[0].value.as< ::sqf::parser::sqf::bison::astnode > (); }
+    { yylhs.value.as< ::sqf::parser::sqf::bison::astnode > () = std::move(yystack_[0].value.as< ::sqf::parser::sqf::bison::astnode > ()); }
 #line 1148 "parser.tab.cc" // lalr1.cc:859
     break;
 
   case 66:
 #line 229 "parser.y" // lalr1.cc:859
-    { yylhs.value.as< ::sqf::parser::sqf::bison::astnode > () = ::sqf::parser::sqf::bison::astnode{ astkind::EXP2, yystack_[1].value.as< tokenizer::token > () }; yylhs.value.as< ::sqf::parser::sqf::bison::astnode > ().append(yystack_[2].value.as< ::sqf::parser::sqf::bison::astnode > ()); yylhs.value.as< ::sqf::parser::sqf::bison::astnode > ().append(yystack_[0].value.as< ::sqf::parser::sqf::bison::astnode > ()); }
+    { yylhs.value.as< ::sqf::parser::sqf::bison::astnode > () = ::sqf::parser::sqf::bison::astnode{ astkind::EXP2, yystack_[1].value.as< tokenizer::token > () }; yylhs.value.as< ::sqf::parser::sqf::bison::astnode > ().append(std::move(yystack_[2].value.as< ::sqf::parser::sqf::bison::astnode > ())); yylhs.value.as< ::sqf::parser::sqf::bison::astnode > ().append(std::move(yystack_[0].value.as< ::sqf::parser::sqf::bison::astnode > ())); }
 #line 1154 "parser.tab.cc" // lalr1.cc:859
     break;
 
   case 67:
 #line 230 "parser.y" // lalr1.cc:859
-    { yylhs.value.as< ::sqf::parser::sqf::bison::astnode > () = ::sqf::parser::sqf::bison::astnode{ astkind::EXP2, yystack_[1].value.as< tokenizer::token > () }; yylhs.value.as< ::sqf::parser::sqf::bison::astnode > ().append(yystack_[2].value.as< ::sqf::parser::sqf::bison::astnode > ()); yylhs.value.as< ::sqf::parser::sqf::bison::astnode > ().append(yystack_[0].value.as< ::sqf::parser::sqf::bison::astnode > ()); }
+    { yylhs.value.as< ::sqf::parser::sqf::bison::astnode > () = ::sqf::parser::sqf::bison::astnode{ astkind::EXP2, yystack_[1].value.as< tokenizer::token > () }; yylhs.value.as< ::sqf::parser::sqf::bison::astnode > ().append(std::move(yystack_[2].value.as< ::sqf::parser::sqf::bison::astnode > ())); yylhs.value.as< ::sqf::parser::sqf::bison::astnode > ().append(std::move(yystack_[0].value.as< ::sqf::parser::sqf::bison::astnode > ())); }
 #line 1160 "parser.tab.cc" // lalr1.cc:859
     break;
 
   case 68:
 #line 231 "parser.y" // lalr1.cc:859
-    { yylhs.value.as< ::sqf::parser::sqf::bison::astnode > () = ::sqf::parser::sqf::bison::astnode{ astkind::EXP2, yystack_[1].value.as< tokenizer::token > () }; yylhs.value.as< ::sqf::parser::sqf::bison::astnode > ().append(yystack_[2].value.as< ::sqf::parser::sqf::bison::astnode > ()); yylhs.value.as< ::sqf::parser::sqf::bison::astnode > ().append(yystack_[0].value.as< ::sqf::parser::sqf::bison::astnode > ()); }
+    { yylhs.value.as< ::sqf::parser::sqf::bison::astnode > () = ::sqf::parser::sqf::bison::astnode{ astkind::EXP2, yystack_[1].value.as< tokenizer::token > () }; yylhs.value.as< ::sqf::parser::sqf::bison::astnode > ().append(std::move(yystack_[2].value.as< ::sqf::parser::sqf::bison::astnode > ())); yylhs.value.as< ::sqf::parser::sqf::bison::astnode > ().append(std::move(yystack_[0].value.as< ::sqf::parser::sqf::bison::astnode > ())); }
 #line 1166 "parser.tab.cc" // lalr1.cc:859
     break;
 
   case 69:
 #line 232 "parser.y" // lalr1.cc:859
-    { yylhs.value.as< ::sqf::parser::sqf::bison::astnode > () = ::sqf::parser::sqf::bison::astnode{ astkind::EXP2, yystack_[1].value.as< tokenizer::token > () }; yylhs.value.as< ::sqf::parser::sqf::bison::astnode > ().append(yystack_[2].value.as< ::sqf::parser::sqf::bison::astnode > ()); yylhs.value.as< ::sqf::parser::sqf::bison::astnode > ().append(yystack_[0].value.as< ::sqf::parser::sqf::bison::astnode > ()); }
+    { yylhs.value.as< ::sqf::parser::sqf::bison::astnode > () = ::sqf::parser::sqf::bison::astnode{ astkind::EXP2, yystack_[1].value.as< tokenizer::token > () }; yylhs.value.as< ::sqf::parser::sqf::bison::astnode > ().append(std::move(yystack_[2].value.as< ::sqf::parser::sqf::bison::astnode > ())); yylhs.value.as< ::sqf::parser::sqf::bison::astnode > ().append(std::move(yystack_[0].value.as< ::sqf::parser::sqf::bison::astnode > ())); }
 #line 1172 "parser.tab.cc" // lalr1.cc:859
     break;
 
   case 70:
 #line 234 "parser.y" // lalr1.cc:859
-    { yylhs.value.as< ::sqf::parser::sqf::bison::astnode > () = yystack_[0].value.as< ::sqf::parser::sqf::bison::astnode > (); }
+    { yylhs.value.as< ::sqf::parser::sqf::bison::astnode > () = std::move(yystack_[0].value.as< ::sqf::parser::sqf::bison::astnode > ()); }
 #line 1178 "parser.tab.cc" // lalr1.cc:859
     break;
 
   case 71:
 #line 235 "parser.y" // lalr1.cc:859
-    { yylhs.value.as< ::sqf::parser::sqf::bison::astnode > () = ::sqf::parser::sqf::bison::astnode{ astkind::EXP3, yystack_[1].value.as< tokenizer::token > () }; yylhs.value.as< ::sqf::parser::sqf::bison::astnode > ().append(yystack_[2].value.as< ::sqf::parser::sqf::bison::astnode > ()); yylhs.value.as< ::sqf::parser::sqf::bison::astnode > ().append(yystack_[0].value.as< ::sqf::parser::sqf::bison::astnode > ()); }
+    { yylhs.value.as< ::sqf::parser::sqf::bison::astnode > () = ::sqf::parser::sqf::bison::astnode{ astkind::EXP3, yystack_[1].value.as< tokenizer::token > () }; yylhs.value.as< ::sqf::parser::sqf::bison::astnode > ().append(std::move(yystack_[2].value.as< ::sqf::parser::sqf::bison::astnode > ())); yylhs.value.as< ::sqf::parser::sqf::bison::astnode > ().append(std::move(yystack_[0].value.as< ::sqf::parser::sqf::bison::astnode > ())); }
 #line 1184 "parser.tab.cc" // lalr1.cc:859
     break;
 
   case 72:
 #line 236 "parser.y" // lalr1.cc:859
-    { yylhs.value.as< ::sqf::parser::sqf::bison::astnode > () = ::sqf::parser::sqf::bison::astnode{ astkind::EXP3, yystack_[1].value.as< tokenizer::token > () }; yylhs.value.as< ::sqf::parser::sqf::bison::astnode > ().append(yystack_[2].value.as< ::sqf::parser::sqf::bison::astnode > ()); yylhs.value.as< ::sqf::parser::sqf::bison::astnode > ().append(yystack_[0].value.as< ::sqf::parser::sqf::bison::astnode > ()); }
+    { yylhs.value.as< ::sqf::parser::sqf::bison::astnode > () = ::sqf::parser::sqf::bison::astnode{ astkind::EXP3, yystack_[1].value.as< tokenizer::token > () }; yylhs.value.as< ::sqf::parser::sqf::bison::astnode > ().append(std::move(yystack_[2].value.as< ::sqf::parser::sqf::bison::astnode > ())); yylhs.value.as< ::sqf::parser::sqf::bison::astnode > ().append(std::move(yystack_[0].value.as< ::sqf::parser::sqf::bison::astnode > ())); }
 #line 1190 "parser.tab.cc" // lalr1.cc:859
     break;
 
   case 73:
 #line 237 "parser.y" // lalr1.cc:859
-    { yylhs.value.as< ::sqf::parser::sqf::bison::astnode > () = ::sqf::parser::sqf::bison::astnode{ astkind::EXP3, yystack_[1].value.as< tokenizer::token > () }; yylhs.value.as< ::sqf::parser::sqf::bison::astnode > ().append(yystack_[2].value.as< ::sqf::parser::sqf::bison::astnode > ()); yylhs.value.as< ::sqf::parser::sqf::bison::astnode > ().append(yystack_[0].value.as< ::sqf::parser::sqf::bison::astnode > ()); }
+    { yylhs.value.as< ::sqf::parser::sqf::bison::astnode > () = ::sqf::parser::sqf::bison::astnode{ astkind::EXP3, yystack_[1].value.as< tokenizer::token > () }; yylhs.value.as< ::sqf::parser::sqf::bison::astnode > ().append(std::move(yystack_[2].value.as< ::sqf::parser::sqf::bison::astnode > ())); yylhs.value.as< ::sqf::parser::sqf::bison::astnode > ().append(std::move(yystack_[0].value.as< ::sqf::parser::sqf::bison::astnode > ())); }
 #line 1196 "parser.tab.cc" // lalr1.cc:859
     break;
 
   case 74:
 #line 238 "parser.y" // lalr1.cc:859
-    { yylhs.value.as< ::sqf::parser::sqf::bison::astnode > () = ::sqf::parser::sqf::bison::astnode{ astkind::EXP3, yystack_[1].value.as< tokenizer::token > () }; yylhs.value.as< ::sqf::parser::sqf::bison::astnode > ().append(yystack_[2].value.as< ::sqf::parser::sqf::bison::astnode > ()); yylhs.value.as< ::sqf::parser::sqf::bison::astnode > ().append(yystack_[0].value.as< ::sqf::parser::sqf::bison::astnode > ()); }
+    { yylhs.value.as< ::sqf::parser::sqf::bison::astnode > () = ::sqf::parser::sqf::bison::astnode{ astkind::EXP3, yystack_[1].value.as< tokenizer::token > () }; yylhs.value.as< ::sqf::parser::sqf::bison::astnode > ().append(std::move(yystack_[2].value.as< ::sqf::parser::sqf::bison::astnode > ())); yylhs.value.as< ::sqf::parser::sqf::bison::astnode > ().append(std::move(yystack_[0].value.as< ::sqf::parser::sqf::bison::astnode > ())); }
 #line 1202 "parser.tab.cc" // lalr1.cc:859
     break;
 
   case 75:
 #line 240 "parser.y" // lalr1.cc:859
-    { yylhs.value.as< ::sqf::parser::sqf::bison::astnode > () = yystack_[0].value.as< ::sqf::parser::sqf::bison::astnode > (); }
+    { yylhs.value.as< ::sqf::parser::sqf::bison::astnode > () = std::move(yystack_[0].value.as< ::sqf::parser::sqf::bison::astnode > ()); }
 #line 1208 "parser.tab.cc" // lalr1.cc:859
     break;
 
   case 76:
 #line 241 "parser.y" // lalr1.cc:859
-    { yylhs.value.as< ::sqf::parser::sqf::bison::astnode > () = ::sqf::parser::sqf::bison::astnode{ astkind::EXP4, yystack_[1].value.as< tokenizer::token > () }; yylhs.value.as< ::sqf::parser::sqf::bison::astnode > ().append(yystack_[2].value.as< ::sqf::parser::sqf::bison::astnode > ()); yylhs.value.as< ::sqf::parser::sqf::bison::astnode > ().append(yystack_[0].value.as< ::sqf::parser::sqf::bison::astnode > ()); }
+    { yylhs.value.as< ::sqf::parser::sqf::bison::astnode > () = ::sqf::parser::sqf::bison::astnode{ astkind::EXP4, yystack_[1].value.as< tokenizer::token > () }; yylhs.value.as< ::sqf::parser::sqf::bison::astnode > ().append(std::move(yystack_[2].value.as< ::sqf::parser::sqf::bison::astnode > ())); yylhs.value.as< ::sqf::parser::sqf::bison::astnode > ().append(std::move(yystack_[0].value.as< ::sqf::parser::sqf::bison::astnode > ())); }
 #line 1214 "parser.tab.cc" // lalr1.cc:859
     break;
 
   case 77:
 #line 242 "parser.y" // lalr1.cc:859
-    { yylhs.value.as< ::sqf::parser::sqf::bison::astnode > () = ::sqf::parser::sqf::bison::astnode{ astkind::EXP4, yystack_[1].value.as< tokenizer::token > () }; yylhs.value.as< ::sqf::parser::sqf::bison::astnode > ().append(yystack_[2].value.as< ::sqf::parser::sqf::bison::astnode > ()); yylhs.value.as< ::sqf::parser::sqf::bison::astnode > ().append(yystack_[0].value.as< ::sqf::parser::sqf::bison::astnode > ()); }
+    { yylhs.value.as< ::sqf::parser::sqf::bison::astnode > () = ::sqf::parser::sqf::bison::astnode{ astkind::EXP4, yystack_[1].value.as< tokenizer::token > () }; yylhs.value.as< ::sqf::parser::sqf::bison::astnode > ().append(std::move(yystack_[2].value.as< ::sqf::parser::sqf::bison::astnode > ())); yylhs.value.as< ::sqf::parser::sqf::bison::astnode > ().append(std::move(yystack_[0].value.as< ::sqf::parser::sqf::bison::astnode > ())); }
 #line 1220 "parser.tab.cc" // lalr1.cc:859
     break;
 
   case 78:
 #line 243 "parser.y" // lalr1.cc:859
-    { yylhs.value.as< ::sqf::parser::sqf::bison::astnode > () = ::sqf::parser::sqf::bison::astnode{ astkind::EXP4, yystack_[1].value.as< tokenizer::token > () }; yylhs.value.as< ::sqf::parser::sqf::bison::astnode > ().append(yystack_[2].value.as< ::sqf::parser::sqf::bison::astnode > ()); yylhs.value.as< ::sqf::parser::sqf::bison::astnode > ().append(yystack_[0].value.as< ::sqf::parser::sqf::bison::astnode > ()); }
+    { yylhs.value.as< ::sqf::parser::sqf::bison::astnode > () = ::sqf::parser::sqf::bison::astnode{ astkind::EXP4, yystack_[1].value.as< tokenizer::token > () }; yylhs.value.as< ::sqf::parser::sqf::bison::astnode > ().append(std::move(yystack_[2].value.as< ::sqf::parser::sqf::bison::astnode > ())); yylhs.value.as< ::sqf::parser::sqf::bison::astnode > ().append(std::move(yystack_[0].value.as< ::sqf::parser::sqf::bison::astnode > ())); }
 #line 1226 "parser.tab.cc" // lalr1.cc:859
     break;
 
   case 79:
 #line 244 "parser.y" // lalr1.cc:859
-    { yylhs.value.as< ::sqf::parser::sqf::bison::astnode > () = ::sqf::parser::sqf::bison::astnode{ astkind::EXP4, yystack_[1].value.as< tokenizer::token > () }; yylhs.value.as< ::sqf::parser::sqf::bison::astnode > ().append(yystack_[2].value.as< ::sqf::parser::sqf::bison::astnode > ()); yylhs.value.as< ::sqf::parser::sqf::bison::astnode > ().append(yystack_[0].value.as< ::sqf::parser::sqf::bison::astnode > ()); }
+    { yylhs.value.as< ::sqf::parser::sqf::bison::astnode > () = ::sqf::parser::sqf::bison::astnode{ astkind::EXP4, yystack_[1].value.as< tokenizer::token > () }; yylhs.value.as< ::sqf::parser::sqf::bison::astnode > ().append(std::move(yystack_[2].value.as< ::sqf::parser::sqf::bison::astnode > ())); yylhs.value.as< ::sqf::parser::sqf::bison::astnode > ().append(std::move(yystack_[0].value.as< ::sqf::parser::sqf::bison::astnode > ())); }
 #line 1232 "parser.tab.cc" // lalr1.cc:859
     break;
 
   case 80:
 #line 246 "parser.y" // lalr1.cc:859
-    { yylhs.value.as< ::sqf::parser::sqf::bison::astnode > () = yystack_[0].value.as< ::sqf::parser::sqf::bison::astnode > (); }
+    { yylhs.value.as< ::sqf::parser::sqf::bison::astnode > () = std::move(yystack_[0].value.as< ::sqf::parser::sqf::bison::astnode > ()); }
 #line 1238 "parser.tab.cc" // lalr1.cc:859
     break;
 
   case 81:
 #line 247 "parser.y" // lalr1.cc:859
-    { yylhs.value.as< ::sqf::parser::sqf::bison::astnode > () = ::sqf::parser::sqf::bison::astnode{ astkind::EXP5, yystack_[1].value.as< tokenizer::token > () }; yylhs.value.as< ::sqf::parser::sqf::bison::astnode > ().append(yystack_[2].value.as< ::sqf::parser::sqf::bison::astnode > ()); yylhs.value.as< ::sqf::parser::sqf::bison::astnode > ().append(yystack_[0].value.as< ::sqf::parser::sqf::bison::astnode > ()); }
+    { yylhs.value.as< ::sqf::parser::sqf::bison::astnode > () = ::sqf::parser::sqf::bison::astnode{ astkind::EXP5, yystack_[1].value.as< tokenizer::token > () }; yylhs.value.as< ::sqf::parser::sqf::bison::astnode > ().append(std::move(yystack_[2].value.as< ::sqf::parser::sqf::bison::astnode > ())); yylhs.value.as< ::sqf::parser::sqf::bison::astnode > ().append(std::move(yystack_[0].value.as< ::sqf::parser::sqf::bison::astnode > ())); }
 #line 1244 "parser.tab.cc" // lalr1.cc:859
     break;
 
   case 82:
 #line 248 "parser.y" // lalr1.cc:859
-    { yylhs.value.as< ::sqf::parser::sqf::bison::astnode > () = ::sqf::parser::sqf::bison::astnode{ astkind::EXP5, yystack_[1].value.as< tokenizer::token > () }; yylhs.value.as< ::sqf::parser::sqf::bison::astnode > ().append(yystack_[2].value.as< ::sqf::parser::sqf::bison::astnode > ()); yylhs.value.as< ::sqf::parser::sqf::bison::astnode > ().append(yystack_[0].value.as< ::sqf::parser::sqf::bison::astnode > ()); }
+    { yylhs.value.as< ::sqf::parser::sqf::bison::astnode > () = ::sqf::parser::sqf::bison::astnode{ astkind::EXP5, yystack_[1].value.as< tokenizer::token > () }; yylhs.value.as< ::sqf::parser::sqf::bison::astnode > ().append(std::move(yystack_[2].value.as< ::sqf::parser::sqf::bison::astnode > ())); yylhs.value.as< ::sqf::parser::sqf::bison::astnode > ().append(std::move(yystack_[0].value.as< ::sqf::parser::sqf::bison::astnode > ())); }
 #line 1250 "parser.tab.cc" // lalr1.cc:859
     break;
 
   case 83:
 #line 249 "parser.y" // lalr1.cc:859
-    { yylhs.value.as< ::sqf::parser::sqf::bison::astnode > () = ::sqf::parser::sqf::bison::astnode{ astkind::EXP5, yystack_[1].value.as< tokenizer::token > () }; yylhs.value.as< ::sqf::parser::sqf::bison::astnode > ().append(yystack_[2].value.as< ::sqf::parser::sqf::bison::astnode > ()); yylhs.value.as< ::sqf::parser::sqf::bison::astnode > ().append(yystack_[0].value.as< ::sqf::parser::sqf::bison::astnode > ()); }
+    { yylhs.value.as< ::sqf::parser::sqf::bison::astnode > () = ::sqf::parser::sqf::bison::astnode{ astkind::EXP5, yystack_[1].value.as< tokenizer::token > () }; yylhs.value.as< ::sqf::parser::sqf::bison::astnode > ().append(std::move(yystack_[2].value.as< ::sqf::parser::sqf::bison::astnode > ())); yylhs.value.as< ::sqf::parser::sqf::bison::astnode > ().append(std::move(yystack_[0].value.as< ::sqf::parser::sqf::bison::astnode > ())); }
 #line 1256 "parser.tab.cc" // lalr1.cc:859
     break;
 
   case 84:
 #line 250 "parser.y" // lalr1.cc:859
-    { yylhs.value.as< ::sqf::parser::sqf::bison::astnode > () = ::sqf::parser::sqf::bison::astnode{ astkind::EXP5, yystack_[1].value.as< tokenizer::token > () }; yylhs.value.as< ::sqf::parser::sqf::bison::astnode > ().append(yystack_[2].value.as< ::sqf::parser::sqf::bison::astnode > ()); yylhs.value.as< ::sqf::parser::sqf::bison::astnode > ().append(yystack_[0].value.as< ::sqf::parser::sqf::bison::astnode > ()); }
+    { yylhs.value.as< ::sqf::parser::sqf::bison::astnode > () = ::sqf::parser::sqf::bison::astnode{ astkind::EXP5, yystack_[1].value.as< tokenizer::token > () }; yylhs.value.as< ::sqf::parser::sqf::bison::astnode > ().append(std::move(yystack_[2].value.as< ::sqf::parser::sqf::bison::astnode > ())); yylhs.value.as< ::sqf::parser::sqf::bison::astnode > ().append(std::move(yystack_[0].value.as< ::sqf::parser::sqf::bison::astnode > ())); }
 #line 1262 "parser.tab.cc" // lalr1.cc:859
     break;
 
   case 85:
 #line 252 "parser.y" // lalr1.cc:859
-    { yylhs.value.as< ::sqf::parser::sqf::bison::astnode > () = yystack_[0].value.as< ::sqf::parser::sqf::bison::astnode > (); }
+    { yylhs.value.as< ::sqf::parser::sqf::bison::astnode > () = std::move(yystack_[0].value.as< ::sqf::parser::sqf::bison::astnode > ()); }
 #line 1268 "parser.tab.cc" // lalr1.cc:859
     break;
 
   case 86:
 #line 253 "parser.y" // lalr1.cc:859
-    { yylhs.value.as< ::sqf::parser::sqf::bison::astnode > () = ::sqf::parser::sqf::bison::astnode{ astkind::EXP6, yystack_[1].value.as< tokenizer::token > () }; yylhs.value.as< ::sqf::parser::sqf::bison::astnode > ().append(yystack_[2].value.as< ::sqf::parser::sqf::bison::astnode > ()); yylhs.value.as< ::sqf::parser::sqf::bison::astnode > ().append(yystack_[0].value.as< ::sqf::parser::sqf::bison::astnode > ()); }
+    { yylhs.value.as< ::sqf::parser::sqf::bison::astnode > () = ::sqf::parser::sqf::bison::astnode{ astkind::EXP6, yystack_[1].value.as< tokenizer::token > () }; yylhs.value.as< ::sqf::parser::sqf::bison::astnode > ().append(std::move(yystack_[2].value.as< ::sqf::parser::sqf::bison::astnode > ())); yylhs.value.as< ::sqf::parser::sqf::bison::astnode > ().append(std::move(yystack_[0].value.as< ::sqf::parser::sqf::bison::astnode > ())); }
 #line 1274 "parser.tab.cc" // lalr1.cc:859
     break;
 
   case 87:
 #line 254 "parser.y" // lalr1.cc:859
-    { yylhs.value.as< ::sqf::parser::sqf::bison::astnode > () = ::sqf::parser::sqf::bison::astnode{ astkind::EXP6, yystack_[1].value.as< tokenizer::token > () }; yylhs.value.as< ::sqf::parser::sqf::bison::astnode > ().append(yystack_[2].value.as< ::sqf::parser::sqf::bison::astnode > ()); yylhs.value.as< ::sqf::parser::sqf::bison::astnode > ().append(yystack_[0].value.as< ::sqf::parser::sqf::bison::astnode > ()); }
+    { yylhs.value.as< ::sqf::parser::sqf::bison::astnode > () = ::sqf::parser::sqf::bison::astnode{ astkind::EXP6, yystack_[1].value.as< tokenizer::token > () }; yylhs.value.as< ::sqf::parser::sqf::bison::astnode > ().append(std::move(yystack_[2].value.as< ::sqf::parser::sqf::bison::astnode > ())); yylhs.value.as< ::sqf::parser::sqf::bison::astnode > ().append(std::move(yystack_[0].value.as< ::sqf::parser::sqf::bison::astnode > ())); }
 #line 1280 "parser.tab.cc" // lalr1.cc:859
     break;
 
   case 88:
 #line 255 "parser.y" // lalr1.cc:859
-    { yylhs.value.as< ::sqf::parser::sqf::bison::astnode > () = ::sqf::parser::sqf::bison::astnode{ astkind::EXP6, yystack_[1].value.as< tokenizer::token > () }; yylhs.value.as< ::sqf::parser::sqf::bison::astnode > ().append(yystack_[2].value.as< ::sqf::parser::sqf::bison::astnode > ()); yylhs.value.as< ::sqf::parser::sqf::bison::astnode > ().append(yystack_[0].value.as< ::sqf::parser::sqf::bison::astnode > ()); }
+    { yylhs.value.as< ::sqf::parser::sqf::bison::astnode > () = ::sqf::parser::sqf::bison::astnode{ astkind::EXP6, yystack_[1].value.as< tokenizer::token > () }; yylhs.value.as< ::sqf::parser::sqf::bison::astnode > ().append(std::move(yystack_[2].value.as< ::sqf::parser::sqf::bison::astnode > ())); yylhs.value.as< ::sqf::parser::sqf::bison::astnode > ().append(std::move(yystack_[0].value.as< ::sqf::parser::sqf::bison::astnode > ())); }
 #line 1286 "parser.tab.cc" // lalr1.cc:859
     break;
 
   case 89:
 #line 256 "parser.y" // lalr1.cc:859
-    { yylhs.value.as< ::sqf::parser::sqf::bison::astnode > () = ::sqf::parser::sqf::bison::astnode{ astkind::EXP6, yystack_[1].value.as< tokenizer::token > () }; yylhs.value.as< ::sqf::parser::sqf::bison::astnode > ().append(yystack_[2].value.as< ::sqf::parser::sqf::bison::astnode > ()); yylhs.value.as< ::sqf::parser::sqf::bison::astnode > ().append(yystack_[0].value.as< ::sqf::parser::sqf::bison::astnode > ()); }
+    { yylhs.value.as< ::sqf::parser::sqf::bison::astnode > () = ::sqf::parser::sqf::bison::astnode{ astkind::EXP6, yystack_[1].value.as< tokenizer::token > () }; yylhs.value.as< ::sqf::parser::sqf::bison::astnode > ().append(std::move(yystack_[2].value.as< ::sqf::parser::sqf::bison::astnode > ())); yylhs.value.as< ::sqf::parser::sqf::bison::astnode > ().append(std::move(yystack_[0].value.as< ::sqf::parser::sqf::bison::astnode > ())); }
 #line 1292 "parser.tab.cc" // lalr1.cc:859
     break;
 
   case 90:
 #line 258 "parser.y" // lalr1.cc:859
-    { yylhs.value.as< ::sqf::parser::sqf::bison::astnode > () = yystack_[0].value.as< ::sqf::parser::sqf::bison::astnode > (); }
+    { yylhs.value.as< ::sqf::parser::sqf::bison::astnode > () = std::move(yystack_[0].value.as< ::sqf::parser::sqf::bison::astnode > ()); }
 #line 1298 "parser.tab.cc" // lalr1.cc:859
     break;
 
   case 91:
 #line 259 "parser.y" // lalr1.cc:859
-    { yylhs.value.as< ::sqf::parser::sqf::bison::astnode > () = ::sqf::parser::sqf::bison::astnode{ astkind::EXP7, yystack_[1].value.as< tokenizer::token > () }; yylhs.value.as< ::sqf::parser::sqf::bison::astnode > ().append(yystack_[2].value.as< ::sqf::parser::sqf::bison::astnode > ()); yylhs.value.as< ::sqf::parser::sqf::bison::astnode > ().append(yystack_[0].value.as< ::sqf::parser::sqf::bison::astnode > ()); }
+    { yylhs.value.as< ::sqf::parser::sqf::bison::astnode > () = ::sqf::parser::sqf::bison::astnode{ astkind::EXP7, yystack_[1].value.as< tokenizer::token > () }; yylhs.value.as< ::sqf::parser::sqf::bison::astnode > ().append(std::move(yystack_[2].value.as< ::sqf::parser::sqf::bison::astnode > ())); yylhs.value.as< ::sqf::parser::sqf::bison::astnode > ().append(std::move(yystack_[0].value.as< ::sqf::parser::sqf::bison::astnode > ())); }
 #line 1304 "parser.tab.cc" // lalr1.cc:859
     break;
 
   case 92:
 #line 260 "parser.y" // lalr1.cc:859
-    { yylhs.value.as< ::sqf::parser::sqf::bison::astnode > () = ::sqf::parser::sqf::bison::astnode{ astkind::EXP7, yystack_[1].value.as< tokenizer::token > () }; yylhs.value.as< ::sqf::parser::sqf::bison::astnode > ().append(yystack_[2].value.as< ::sqf::parser::sqf::bison::astnode > ()); yylhs.value.as< ::sqf::parser::sqf::bison::astnode > ().append(yystack_[0].value.as< ::sqf::parser::sqf::bison::astnode > ()); }
+    { yylhs.value.as< ::sqf::parser::sqf::bison::astnode > () = ::sqf::parser::sqf::bison::astnode{ astkind::EXP7, yystack_[1].value.as< tokenizer::token > () }; yylhs.value.as< ::sqf::parser::sqf::bison::astnode > ().append(std::move(yystack_[2].value.as< ::sqf::parser::sqf::bison::astnode > ())); yylhs.value.as< ::sqf::parser::sqf::bison::astnode > ().append(std::move(yystack_[0].value.as< ::sqf::parser::sqf::bison::astnode > ())); }
 #line 1310 "parser.tab.cc" // lalr1.cc:859
     break;
 
   case 93:
 #line 261 "parser.y" // lalr1.cc:859
-    { yylhs.value.as< ::sqf::parser::sqf::bison::astnode > () = ::sqf::parser::sqf::bison::astnode{ astkind::EXP7, yystack_[1].value.as< tokenizer::token > () }; yylhs.value.as< ::sqf::parser::sqf::bison::astnode > ().append(yystack_[2].value.as< ::sqf::parser::sqf::bison::astnode > ()); yylhs.value.as< ::sqf::parser::sqf::bison::astnode > ().append(yystack_[0].value.as< ::sqf::parser::sqf::bison::astnode > ()); }
+    { yylhs.value.as< ::sqf::parser::sqf::bison::astnode > () = ::sqf::parser::sqf::bison::astnode{ astkind::EXP7, yystack_[1].value.as< tokenizer::token > () }; yylhs.value.as< ::sqf::parser::sqf::bison::astnode > ().append(std::move(yystack_[2].value.as< ::sqf::parser::sqf::bison::astnode > ())); yylhs.value.as< ::sqf::parser::sqf::bison::astnode > ().append(std::move(yystack_[0].value.as< ::sqf::parser::sqf::bison::astnode > ())); }
 #line 1316 "parser.tab.cc" // lalr1.cc:859
     break;
 
   case 94:
 #line 262 "parser.y" // lalr1.cc:859
-    { yylhs.value.as< ::sqf::parser::sqf::bison::astnode > () = ::sqf::parser::sqf::bison::astnode{ astkind::EXP7, yystack_[1].value.as< tokenizer::token > () }; yylhs.value.as< ::sqf::parser::sqf::bison::astnode > ().append(yystack_[2].value.as< ::sqf::parser::sqf::bison::astnode > ()); yylhs.value.as< ::sqf::parser::sqf::bison::astnode > ().append(yystack_[0].value.as< ::sqf::parser::sqf::bison::astnode > ()); }
+    { yylhs.value.as< ::sqf::parser::sqf::bison::astnode > () = ::sqf::parser::sqf::bison::astnode{ astkind::EXP7, yystack_[1].value.as< tokenizer::token > () }; yylhs.value.as< ::sqf::parser::sqf::bison::astnode > ().append(std::move(yystack_[2].value.as< ::sqf::parser::sqf::bison::astnode > ())); yylhs.value.as< ::sqf::parser::sqf::bison::astnode > ().append(std::move(yystack_[0].value.as< ::sqf::parser::sqf::bison::astnode > ())); }
 #line 1322 "parser.tab.cc" // lalr1.cc:859
     break;
 
   case 95:
 #line 264 "parser.y" // lalr1.cc:859
-    { yylhs.value.as< ::sqf::parser::sqf::bison::astnode > () = yystack_[0].value.as< ::sqf::parser::sqf::bison::astnode > (); }
+    { yylhs.value.as< ::sqf::parser::sqf::bison::astnode > () = std::move(yystack_[0].value.as< ::sqf::parser::sqf::bison::astnode > ()); }
 #line 1328 "parser.tab.cc" // lalr1.cc:859
     break;
 
   case 96:
 #line 265 "parser.y" // lalr1.cc:859
-    { yylhs.value.as< ::sqf::parser::sqf::bison::astnode > () = ::sqf::parser::sqf::bison::astnode{ astkind::EXP8, yystack_[1].value.as< tokenizer::token > () }; yylhs.value.as< ::sqf::parser::sqf::bison::astnode > ().append(yystack_[2].value.as< ::sqf::parser::sqf::bison::astnode > ()); yylhs.value.as< ::sqf::parser::sqf::bison::astnode > ().append(yystack_[0].value.as< ::sqf::parser::sqf::bison::astnode > ()); }
+    { yylhs.value.as< ::sqf::parser::sqf::bison::astnode > () = ::sqf::parser::sqf::bison::astnode{ astkind::EXP8, yystack_[1].value.as< tokenizer::token > () }; yylhs.value.as< ::sqf::parser::sqf::bison::astnode > ().append(std::move(yystack_[2].value.as< ::sqf::parser::sqf::bison::astnode > ())); yylhs.value.as< ::sqf::parser::sqf::bison::astnode > ().append(std::move(yystack_[0].value.as< ::sqf::parser::sqf::bison::astnode > ())); }
 #line 1334 "parser.tab.cc" // lalr1.cc:859
     break;
 
   case 97:
 #line 266 "parser.y" // lalr1.cc:859
-    { yylhs.value.as< ::sqf::parser::sqf::bison::astnode > () = ::sqf::parser::sqf::bison::astnode{ astkind::EXP8, yystack_[1].value.as< tokenizer::token > () }; yylhs.value.as< ::sqf::parser::sqf::bison::astnode > ().append(yystack_[2].value.as< ::sqf::parser::sqf::bison::astnode > ()); yylhs.value.as< ::sqf::parser::sqf::bison::astnode > ().append(yystack_[0].value.as< ::sqf::parser::sqf::bison::astnode > ()); }
+    { yylhs.value.as< ::sqf::parser::sqf::bison::astnode > () = ::sqf::parser::sqf::bison::astnode{ astkind::EXP8, yystack_[1].value.as< tokenizer::token > () }; yylhs.value.as< ::sqf::parser::sqf::bison::astnode > ().append(std::move(yystack_[2].value.as< ::sqf::parser::sqf::bison::astnode > ())); yylhs.value.as< ::sqf::parser::sqf::bison::astnode > ().append(std::move(yystack_[0].value.as< ::sqf::parser::sqf::bison::astnode > ())); }
 #line 1340 "parser.tab.cc" // lalr1.cc:859
     break;
 
   case 98:
 #line 267 "parser.y" // lalr1.cc:859
-    { yylhs.value.as< ::sqf::parser::sqf::bison::astnode > () = ::sqf::parser::sqf::bison::astnode{ astkind::EXP8, yystack_[1].value.as< tokenizer::token > () }; yylhs.value.as< ::sqf::parser::sqf::bison::astnode > ().append(yystack_[2].value.as< ::sqf::parser::sqf::bison::astnode > ()); yylhs.value.as< ::sqf::parser::sqf::bison::astnode > ().append(yystack_[0].value.as< ::sqf::parser::sqf::bison::astnode > ()); }
+    { yylhs.value.as< ::sqf::parser::sqf::bison::astnode > () = ::sqf::parser::sqf::bison::astnode{ astkind::EXP8, yystack_[1].value.as< tokenizer::token > () }; yylhs.value.as< ::sqf::parser::sqf::bison::astnode > ().append(std::move(yystack_[2].value.as< ::sqf::parser::sqf::bison::astnode > ())); yylhs.value.as< ::sqf::parser::sqf::bison::astnode > ().append(std::move(yystack_[0].value.as< ::sqf::parser::sqf::bison::astnode > ())); }
 #line 1346 "parser.tab.cc" // lalr1.cc:859
     break;
 
   case 99:
 #line 268 "parser.y" // lalr1.cc:859
-    { yylhs.value.as< ::sqf::parser::sqf::bison::astnode > () = ::sqf::parser::sqf::bison::astnode{ astkind::EXP8, yystack_[1].value.as< tokenizer::token > () }; yylhs.value.as< ::sqf::parser::sqf::bison::astnode > ().append(yystack_[2].value.as< ::sqf::parser::sqf::bison::astnode > ()); yylhs.value.as< ::sqf::parser::sqf::bison::astnode > ().append(yystack_[0].value.as< ::sqf::parser::sqf::bison::astnode > ()); }
+    { yylhs.value.as< ::sqf::parser::sqf::bison::astnode > () = ::sqf::parser::sqf::bison::astnode{ astkind::EXP8, yystack_[1].value.as< tokenizer::token > () }; yylhs.value.as< ::sqf::parser::sqf::bison::astnode > ().append(std::move(yystack_[2].value.as< ::sqf::parser::sqf::bison::astnode > ())); yylhs.value.as< ::sqf::parser::sqf::bison::astnode > ().append(std::move(yystack_[0].value.as< ::sqf::parser::sqf::bison::astnode > ())); }
 #line 1352 "parser.tab.cc" // lalr1.cc:859
     break;
 
   case 100:
 #line 270 "parser.y" // lalr1.cc:859
-    { yylhs.value.as< ::sqf::parser::sqf::bison::astnode > () = yystack_[0].value.as< ::sqf::parser::sqf::bison::astnode > (); }
+    { yylhs.value.as< ::sqf::parser::sqf::bison::astnode > () = std::move(yystack_[0].value.as< ::sqf::parser::sqf::bison::astnode > ()); }
 #line 1358 "parser.tab.cc" // lalr1.cc:859
     break;
 
   case 101:
 #line 271 "parser.y" // lalr1.cc:859
-    { yylhs.value.as< ::sqf::parser::sqf::bison::astnode > () = ::sqf::parser::sqf::bison::astnode{ astkind::EXP9, yystack_[1].value.as< tokenizer::token > () }; yylhs.value.as< ::sqf::parser::sqf::bison::astnode > ().append(yystack_[2].value.as< ::sqf::parser::sqf::bison::astnode > ()); yylhs.value.as< ::sqf::parser::sqf::bison::astnode > ().append(yystack_[0].value.as< ::sqf::parser::sqf::bison::astnode > ()); }
+    { yylhs.value.as< ::sqf::parser::sqf::bison::astnode > () = ::sqf::parser::sqf::bison::astnode{ astkind::EXP9, yystack_[1].value.as< tokenizer::token > () }; yylhs.value.as< ::sqf::parser::sqf::bison::astnode > ().append(std::move(yystack_[2].value.as< ::sqf::parser::sqf::bison::astnode > ())); yylhs.value.as< ::sqf::parser::sqf::bison::astnode > ().append(std::move(yystack_[0].value.as< ::sqf::parser::sqf::bison::astnode > ())); }
 #line 1364 "parser.tab.cc" // lalr1.cc:859
     break;
 
   case 102:
 #line 272 "parser.y" // lalr1.cc:859
-    { yylhs.value.as< ::sqf::parser::sqf::bison::astnode > () = ::sqf::parser::sqf::bison::astnode{ astkind::EXP9, yystack_[1].value.as< tokenizer::token > () }; yylhs.value.as< ::sqf::parser::sqf::bison::astnode > ().append(yystack_[2].value.as< ::sqf::parser::sqf::bison::astnode > ()); yylhs.value.as< ::sqf::parser::sqf::bison::astnode > ().append(yystack_[0].value.as< ::sqf::parser::sqf::bison::astnode > ()); }
+    { yylhs.value.as< ::sqf::parser::sqf::bison::astnode > () = ::sqf::parser::sqf::bison::astnode{ astkind::EXP9, yystack_[1].value.as< tokenizer::token > () }; yylhs.value.as< ::sqf::parser::sqf::bison::astnode > ().append(std::move(yystack_[2].value.as< ::sqf::parser::sqf::bison::astnode > ())); yylhs.value.as< ::sqf::parser::sqf::bison::astnode > ().append(std::move(yystack_[0].value.as< ::sqf::parser::sqf::bison::astnode > ())); }
 #line 1370 "parser.tab.cc" // lalr1.cc:859
     break;
 
   case 103:
 #line 273 "parser.y" // lalr1.cc:859
-    { yylhs.value.as< ::sqf::parser::sqf::bison::astnode > () = ::sqf::parser::sqf::bison::astnode{ astkind::EXP9, yystack_[1].value.as< tokenizer::token > () }; yylhs.value.as< ::sqf::parser::sqf::bison::astnode > ().append(yystack_[2].value.as< ::sqf::parser::sqf::bison::astnode > ()); yylhs.value.as< ::sqf::parser::sqf::bison::astnode > ().append(yystack_[0].value.as< ::sqf::parser::sqf::bison::astnode > ()); }
+    { yylhs.value.as< ::sqf::parser::sqf::bison::astnode > () = ::sqf::parser::sqf::bison::astnode{ astkind::EXP9, yystack_[1].value.as< tokenizer::token > () }; yylhs.value.as< ::sqf::parser::sqf::bison::astnode > ().append(std::move(yystack_[2].value.as< ::sqf::parser::sqf::bison::astnode > ())); yylhs.value.as< ::sqf::parser::sqf::bison::astnode > ().append(std::move(yystack_[0].value.as< ::sqf::parser::sqf::bison::astnode > ())); }
 #line 1376 "parser.tab.cc" // lalr1.cc:859
     break;
 
   case 104:
 #line 274 "parser.y" // lalr1.cc:859
-    { yylhs.value.as< ::sqf::parser::sqf::bison::astnode > () = ::sqf::parser::sqf::bison::astnode{ astkind::EXP9, yystack_[1].value.as< tokenizer::token > () }; yylhs.value.as< ::sqf::parser::sqf::bison::astnode > ().append(yystack_[2].value.as< ::sqf::parser::sqf::bison::astnode > ()); yylhs.value.as< ::sqf::parser::sqf::bison::astnode > ().append(yystack_[0].value.as< ::sqf::parser::sqf::bison::astnode > ()); }
+    { yylhs.value.as< ::sqf::parser::sqf::bison::astnode > () = ::sqf::parser::sqf::bison::astnode{ astkind::EXP9, yystack_[1].value.as< tokenizer::token > () }; yylhs.value.as< ::sqf::parser::sqf::bison::astnode > ().append(std::move(yystack_[2].value.as< ::sqf::parser::sqf::bison::astnode > ())); yylhs.value.as< ::sqf::parser::sqf::bison::astnode > ().append(std::move(yystack_[0].value.as< ::sqf::parser::sqf::bison::astnode > ())); }
 #line 1382 "parser.tab.cc" // lalr1.cc:859
     break;
 
   case 105:
 #line 276 "parser.y" // lalr1.cc:859
-    { yylhs.value.as< ::sqf::parser::sqf::bison::astnode > () = ::sqf::parser::sqf::bison::astnode{ astkind::EXPU, yystack_[1].value.as< tokenizer::token > () }; yylhs.value.as< ::sqf::parser::sqf::bison::astnode > ().append(yystack_[0].value.as< ::sqf::parser::sqf::bison::astnode > ()); }
+    { yylhs.value.as< ::sqf::parser::sqf::bison::astnode > () = ::sqf::parser::sqf::bison::astnode{ astkind::EXPU, yystack_[1].value.as< tokenizer::token > () }; yylhs.value.as< ::sqf::parser::sqf::bison::astnode > ().append(std::move(yystack_[0].value.as< ::sqf::parser::sqf::bison::astnode > ())); }
 #line 1388 "parser.tab.cc" // lalr1.cc:859
     break;
 
   case 106:
 #line 277 "parser.y" // lalr1.cc:859
-    { yylhs.value.as< ::sqf::parser::sqf::bison::astnode > () = ::sqf::parser::sqf::bison::astnode{ astkind::EXPU, yystack_[1].value.as< tokenizer::token > () }; yylhs.value.as< ::sqf::parser::sqf::bison::astnode > ().append(yystack_[0].value.as< ::sqf::parser::sqf::bison::astnode > ()); }
+    { yylhs.value.as< ::sqf::parser::sqf::bison::astnode > () = ::sqf::parser::sqf::bison::astnode{ astkind::EXPU, yystack_[1].value.as< tokenizer::token > () }; yylhs.value.as< ::sqf::parser::sqf::bison::astnode > ().append(std::move(yystack_[0].value.as< ::sqf::parser::sqf::bison::astnode > ())); }
 #line 1394 "parser.tab.cc" // lalr1.cc:859
     break;
 
   case 107:
 #line 278 "parser.y" // lalr1.cc:859
-    { yylhs.value.as< ::sqf::parser::sqf::bison::astnode > () = ::sqf::parser::sqf::bison::astnode{ astkind::EXPU, yystack_[1].value.as< tokenizer::token > () }; yylhs.value.as< ::sqf::parser::sqf::bison::astnode > ().append(yystack_[0].value.as< ::sqf::parser::sqf::bison::astnode > ()); }
+    { yylhs.value.as< ::sqf::parser::sqf::bison::astnode > () = ::sqf::parser::sqf::bison::astnode{ astkind::EXPU, yystack_[1].value.as< tokenizer::token > () }; yylhs.value.as< ::sqf::parser::sqf::bison::astnode > ().append(std::move(yystack_[0].value.as< ::sqf::parser::sqf::bison::astnode > ())); }
 #line 1400 "parser.tab.cc" // lalr1.cc:859
     break;
 
   case 108:
 #line 279 "parser.y" // lalr1.cc:859
-    { yylhs.value.as< ::sqf::parser::sqf::bison::astnode > () = ::sqf::parser::sqf::bison::astnode{ astkind::EXPU, yystack_[1].value.as< tokenizer::token > () }; yylhs.value.as< ::sqf::parser::sqf::bison::astnode > ().append(yystack_[0].value.as< ::sqf::parser::sqf::bison::astnode > ()); }
+    { yylhs.value.as< ::sqf::parser::sqf::bison::astnode > () = ::sqf::parser::sqf::bison::astnode{ astkind::EXPU, yystack_[1].value.as< tokenizer::token > () }; yylhs.value.as< ::sqf::parser::sqf::bison::astnode > ().append(std::move(yystack_[0].value.as< ::sqf::parser::sqf::bison::astnode > ())); }
 #line 1406 "parser.tab.cc" // lalr1.cc:859
     break;
 
   case 109:
 #line 280 "parser.y" // lalr1.cc:859
-    { yylhs.value.as< ::sqf::parser::sqf::bison::astnode > () = ::sqf::parser::sqf::bison::astnode{ astkind::EXPU, yystack_[1].value.as< tokenizer::token > () }; yylhs.value.as< ::sqf::parser::sqf::bison::astnode > ().append(yystack_[0].value.as< ::sqf::parser::sqf::bison::astnode > ()); }
+    { yylhs.value.as< ::sqf::parser::sqf::bison::astnode > () = ::sqf::parser::sqf::bison::astnode{ astkind::EXPU, yystack_[1].value.as< tokenizer::token > () }; yylhs.value.as< ::sqf::parser::sqf::bison::astnode > ().append(std::move(yystack_[0].value.as< ::sqf::parser::sqf::bison::astnode > ())); }
 #line 1412 "parser.tab.cc" // lalr1.cc:859
     break;
 
   case 110:
 #line 281 "parser.y" // lalr1.cc:859
-    { yylhs.value.as< ::sqf::parser::sqf::bison::astnode > () = ::sqf::parser::sqf::bison::astnode{ astkind::EXPU, yystack_[1].value.as< tokenizer::token > () }; yylhs.value.as< ::sqf::parser::sqf::bison::astnode > ().append(yystack_[0].value.as< ::sqf::parser::sqf::bison::astnode > ()); }
+    { yylhs.value.as< ::sqf::parser::sqf::bison::astnode > () = ::sqf::parser::sqf::bison::astnode{ astkind::EXPU, yystack_[1].value.as< tokenizer::token > () }; yylhs.value.as< ::sqf::parser::sqf::bison::astnode > ().append(std::move(yystack_[0].value.as< ::sqf::parser::sqf::bison::astnode > ())); }
 #line 1418 "parser.tab.cc" // lalr1.cc:859
     break;
 
   case 111:
 #line 282 "parser.y" // lalr1.cc:859
-    { yylhs.value.as< ::sqf::parser::sqf::bison::astnode > () = ::sqf::parser::sqf::bison::astnode{ astkind::EXPU, yystack_[1].value.as< tokenizer::token > () }; yylhs.value.as< ::sqf::parser::sqf::bison::astnode > ().append(yystack_[0].value.as< ::sqf::parser::sqf::bison::astnode > ()); }
+    { yylhs.value.as< ::sqf::parser::sqf::bison::astnode > () = ::sqf::parser::sqf::bison::astnode{ astkind::EXPU, yystack_[1].value.as< tokenizer::token > () }; yylhs.value.as< ::sqf::parser::sqf::bison::astnode > ().append(std::move(yystack_[0].value.as< ::sqf::parser::sqf::bison::astnode > ())); }
 #line 1424 "parser.tab.cc" // lalr1.cc:859
     break;
 
   case 112:
 #line 283 "parser.y" // lalr1.cc:859
-    { yylhs.value.as< ::sqf::parser::sqf::bison::astnode > () = ::sqf::parser::sqf::bison::astnode{ astkind::EXPU, yystack_[1].value.as< tokenizer::token > () }; yylhs.value.as< ::sqf::parser::sqf::bison::astnode > ().append(yystack_[0].value.as< ::sqf::parser::sqf::bison::astnode > ()); }
+    { yylhs.value.as< ::sqf::parser::sqf::bison::astnode > () = ::sqf::parser::sqf::bison::astnode{ astkind::EXPU, yystack_[1].value.as< tokenizer::token > () }; yylhs.value.as< ::sqf::parser::sqf::bison::astnode > ().append(std::move(yystack_[0].value.as< ::sqf::parser::sqf::bison::astnode > ())); }
 #line 1430 "parser.tab.cc" // lalr1.cc:859
     break;
 
   case 113:
 #line 284 "parser.y" // lalr1.cc:859
-    { yylhs.value.as< ::sqf::parser::sqf::bison::astnode > () = ::sqf::parser::sqf::bison::astnode{ astkind::EXPU, yystack_[1].value.as< tokenizer::token > () }; yylhs.value.as< ::sqf::parser::sqf::bison::astnode > ().append(yystack_[0].value.as< ::sqf::parser::sqf::bison::astnode > ()); }
+    { yylhs.value.as< ::sqf::parser::sqf::bison::astnode > () = ::sqf::parser::sqf::bison::astnode{ astkind::EXPU, yystack_[1].value.as< tokenizer::token > () }; yylhs.value.as< ::sqf::parser::sqf::bison::astnode > ().append(std::move(yystack_[0].value.as< ::sqf::parser::sqf::bison::astnode > ())); }
 #line 1436 "parser.tab.cc" // lalr1.cc:859
     break;
 
   case 114:
 #line 285 "parser.y" // lalr1.cc:859
-    { yylhs.value.as< ::sqf::parser::sqf::bison::astnode > () = ::sqf::parser::sqf::bison::astnode{ astkind::EXPU, yystack_[1].value.as< tokenizer::token > () }; yylhs.value.as< ::sqf::parser::sqf::bison::astnode > ().append(yystack_[0].value.as< ::sqf::parser::sqf::bison::astnode > ()); }
+    { yylhs.value.as< ::sqf::parser::sqf::bison::astnode > () = ::sqf::parser::sqf::bison::astnode{ astkind::EXPU, yystack_[1].value.as< tokenizer::token > () }; yylhs.value.as< ::sqf::parser::sqf::bison::astnode > ().append(std::move(yystack_[0].value.as< ::sqf::parser::sqf::bison::astnode > ())); }
 #line 1442 "parser.tab.cc" // lalr1.cc:859
     break;
 
   case 115:
 #line 286 "parser.y" // lalr1.cc:859
-    { yylhs.value.as< ::sqf::parser::sqf::bison::astnode > () = ::sqf::parser::sqf::bison::astnode{ astkind::EXPU, yystack_[1].value.as< tokenizer::token > () }; yylhs.value.as< ::sqf::parser::sqf::bison::astnode > ().append(yystack_[0].value.as< ::sqf::parser::sqf::bison::astnode > ()); }
+    { yylhs.value.as< ::sqf::parser::sqf::bison::astnode > () = ::sqf::parser::sqf::bison::astnode{ astkind::EXPU, yystack_[1].value.as< tokenizer::token > () }; yylhs.value.as< ::sqf::parser::sqf::bison::astnode > ().append(std::move(yystack_[0].value.as< ::sqf::parser::sqf::bison::astnode > ())); }
 #line 1448 "parser.tab.cc" // lalr1.cc:859
     break;
 
   case 116:
 #line 287 "parser.y" // lalr1.cc:859
-    { yylhs.value.as< ::sqf::parser::sqf::bison::astnode > () = ::sqf::parser::sqf::bison::astnode{ astkind::EXPU, yystack_[1].value.as< tokenizer::token > () }; yylhs.value.as< ::sqf::parser::sqf::bison::astnode > ().append(yystack_[0].value.as< ::sqf::parser::sqf::bison::astnode > ()); }
+    { yylhs.value.as< ::sqf::parser::sqf::bison::astnode > () = ::sqf::parser::sqf::bison::astnode{ astkind::EXPU, yystack_[1].value.as< tokenizer::token > () }; yylhs.value.as< ::sqf::parser::sqf::bison::astnode > ().append(std::move(yystack_[0].value.as< ::sqf::parser::sqf::bison::astnode > ())); }
 #line 1454 "parser.tab.cc" // lalr1.cc:859
     break;
 
   case 117:
 #line 288 "parser.y" // lalr1.cc:859
-    { yylhs.value.as< ::sqf::parser::sqf::bison::astnode > () = ::sqf::parser::sqf::bison::astnode{ astkind::EXPU, yystack_[1].value.as< tokenizer::token > () }; yylhs.value.as< ::sqf::parser::sqf::bison::astnode > ().append(yystack_[0].value.as< ::sqf::parser::sqf::bison::astnode > ()); }
+    { yylhs.value.as< ::sqf::parser::sqf::bison::astnode > () = ::sqf::parser::sqf::bison::astnode{ astkind::EXPU, yystack_[1].value.as< tokenizer::token > () }; yylhs.value.as< ::sqf::parser::sqf::bison::astnode > ().append(std::move(yystack_[0].value.as< ::sqf::parser::sqf::bison::astnode > ())); }
 #line 1460 "parser.tab.cc" // lalr1.cc:859
     break;
 
   case 118:
 #line 289 "parser.y" // lalr1.cc:859
-    { yylhs.value.as< ::sqf::parser::sqf::bison::astnode > () = ::sqf::parser::sqf::bison::astnode{ astkind::EXPU, yystack_[1].value.as< tokenizer::token > () }; yylhs.value.as< ::sqf::parser::sqf::bison::astnode > ().append(yystack_[0].value.as< ::sqf::parser::sqf::bison::astnode > ()); }
+    { yylhs.value.as< ::sqf::parser::sqf::bison::astnode > () = ::sqf::parser::sqf::bison::astnode{ astkind::EXPU, yystack_[1].value.as< tokenizer::token > () }; yylhs.value.as< ::sqf::parser::sqf::bison::astnode > ().append(std::move(yystack_[0].value.as< ::sqf::parser::sqf::bison::astnode > ())); }
 #line 1466 "parser.tab.cc" // lalr1.cc:859
     break;
 
   case 119:
 #line 290 "parser.y" // lalr1.cc:859
-    { yylhs.value.as< ::sqf::parser::sqf::bison::astnode > () = ::sqf::parser::sqf::bison::astnode{ astkind::EXPU, yystack_[1].value.as< tokenizer::token > () }; yylhs.value.as< ::sqf::parser::sqf::bison::astnode > ().append(yystack_[0].value.as< ::sqf::parser::sqf::bison::astnode > ()); }
+    { yylhs.value.as< ::sqf::parser::sqf::bison::astnode > () = ::sqf::parser::sqf::bison::astnode{ astkind::EXPU, yystack_[1].value.as< tokenizer::token > () }; yylhs.value.as< ::sqf::parser::sqf::bison::astnode > ().append(std::move(yystack_[0].value.as< ::sqf::parser::sqf::bison::astnode > ())); }
 #line 1472 "parser.tab.cc" // lalr1.cc:859
     break;
 
   case 120:
 #line 291 "parser.y" // lalr1.cc:859
-    { yylhs.value.as< ::sqf::parser::sqf::bison::astnode > () = ::sqf::parser::sqf::bison::astnode{ astkind::EXPU, yystack_[1].value.as< tokenizer::token > () }; yylhs.value.as< ::sqf::parser::sqf::bison::astnode > ().append(yystack_[0].value.as< ::sqf::parser::sqf::bison::astnode > ()); }
+    { yylhs.value.as< ::sqf::parser::sqf::bison::astnode > () = ::sqf::parser::sqf::bison::astnode{ astkind::EXPU, yystack_[1].value.as< tokenizer::token > () }; yylhs.value.as< ::sqf::parser::sqf::bison::astnode > ().append(std::move(yystack_[0].value.as< ::sqf::parser::sqf::bison::astnode > ())); }
 #line 1478 "parser.tab.cc" // lalr1.cc:859
     break;
 
   case 121:
 #line 292 "parser.y" // lalr1.cc:859
-    { yylhs.value.as< ::sqf::parser::sqf::bison::astnode > () = ::sqf::parser::sqf::bison::astnode{ astkind::EXPU, yystack_[1].value.as< tokenizer::token > () }; yylhs.value.as< ::sqf::parser::sqf::bison::astnode > ().append(yystack_[0].value.as< ::sqf::parser::sqf::bison::astnode > ()); }
+    { yylhs.value.as< ::sqf::parser::sqf::bison::astnode > () = ::sqf::parser::sqf::bison::astnode{ astkind::EXPU, yystack_[1].value.as< tokenizer::token > () }; yylhs.value.as< ::sqf::parser::sqf::bison::astnode > ().append(std::move(yystack_[0].value.as< ::sqf::parser::sqf::bison::astnode > ())); }
 #line 1484 "parser.tab.cc" // lalr1.cc:859
     break;
 
   case 122:
 #line 293 "parser.y" // lalr1.cc:859
-    { yylhs.value.as< ::sqf::parser::sqf::bison::astnode > () = ::sqf::parser::sqf::bison::astnode{ astkind::EXPU, yystack_[1].value.as< tokenizer::token > () }; yylhs.value.as< ::sqf::parser::sqf::bison::astnode > ().append(yystack_[0].value.as< ::sqf::parser::sqf::bison::astnode > ()); }
+    { yylhs.value.as< ::sqf::parser::sqf::bison::astnode > () = ::sqf::parser::sqf::bison::astnode{ astkind::EXPU, yystack_[1].value.as< tokenizer::token > () }; yylhs.value.as< ::sqf::parser::sqf::bison::astnode > ().append(std::move(yystack_[0].value.as< ::sqf::parser::sqf::bison::astnode > ())); }
 #line 1490 "parser.tab.cc" // lalr1.cc:859
     break;
 
   case 123:
 #line 294 "parser.y" // lalr1.cc:859
-    { yylhs.value.as< ::sqf::parser::sqf::bison::astnode > () = ::sqf::parser::sqf::bison::astnode{ astkind::EXPU, yystack_[1].value.as< tokenizer::token > () }; yylhs.value.as< ::sqf::parser::sqf::bison::astnode > ().append(yystack_[0].value.as< ::sqf::parser::sqf::bison::astnode > ()); }
+    { yylhs.value.as< ::sqf::parser::sqf::bison::astnode > () = ::sqf::parser::sqf::bison::astnode{ astkind::EXPU, yystack_[1].value.as< tokenizer::token > () }; yylhs.value.as< ::sqf::parser::sqf::bison::astnode > ().append(std::move(yystack_[0].value.as< ::sqf::parser::sqf::bison::astnode > ())); }
 #line 1496 "parser.tab.cc" // lalr1.cc:859
     break;
 
   case 124:
 #line 295 "parser.y" // lalr1.cc:859
-    { yylhs.value.as< ::sqf::parser::sqf::bison::astnode > () = ::sqf::parser::sqf::bison::astnode{ astkind::EXPU, yystack_[1].value.as< tokenizer::token > () }; yylhs.value.as< ::sqf::parser::sqf::bison::astnode > ().append(yystack_[0].value.as< ::sqf::parser::sqf::bison::astnode > ()); }
+    { yylhs.value.as< ::sqf::parser::sqf::bison::astnode > () = ::sqf::parser::sqf::bison::astnode{ astkind::EXPU, yystack_[1].value.as< tokenizer::token > () }; yylhs.value.as< ::sqf::parser::sqf::bison::astnode > ().append(std::move(yystack_[0].value.as< ::sqf::parser::sqf::bison::astnode > ())); }
 #line 1502 "parser.tab.cc" // lalr1.cc:859
     break;
 
   case 125:
 #line 296 "parser.y" // lalr1.cc:859
-    { yylhs.value.as< ::sqf::parser::sqf::bison::astnode > () = ::sqf::parser::sqf::bison::astnode{ astkind::EXPU, yystack_[1].value.as< tokenizer::token > () }; yylhs.value.as< ::sqf::parser::sqf::bison::astnode > ().append(yystack_[0].value.as< ::sqf::parser::sqf::bison::astnode > ()); }
+    { yylhs.value.as< ::sqf::parser::sqf::bison::astnode > () = ::sqf::parser::sqf::bison::astnode{ astkind::EXPU, yystack_[1].value.as< tokenizer::token > () }; yylhs.value.as< ::sqf::parser::sqf::bison::astnode > ().append(std::move(yystack_[0].value.as< ::sqf::parser::sqf::bison::astnode > ())); }
 #line 1508 "parser.tab.cc" // lalr1.cc:859
     break;
 
   case 126:
 #line 297 "parser.y" // lalr1.cc:859
-    { yylhs.value.as< ::sqf::parser::sqf::bison::astnode > () = ::sqf::parser::sqf::bison::astnode{ astkind::EXPU, yystack_[1].value.as< tokenizer::token > () }; yylhs.value.as< ::sqf::parser::sqf::bison::astnode > ().append(yystack_[0].value.as< ::sqf::parser::sqf::bison::astnode > ()); }
+    { yylhs.value.as< ::sqf::parser::sqf::bison::astnode > () = ::sqf::parser::sqf::bison::astnode{ astkind::EXPU, yystack_[1].value.as< tokenizer::token > () }; yylhs.value.as< ::sqf::parser::sqf::bison::astnode > ().append(std::move(yystack_[0].value.as< ::sqf::parser::sqf::bison::astnode > ())); }
 #line 1514 "parser.tab.cc" // lalr1.cc:859
     break;
 
   case 127:
 #line 298 "parser.y" // lalr1.cc:859
-    { yylhs.value.as< ::sqf::parser::sqf::bison::astnode > () = ::sqf::parser::sqf::bison::astnode{ astkind::EXPU, yystack_[1].value.as< tokenizer::token > () }; yylhs.value.as< ::sqf::parser::sqf::bison::astnode > ().append(yystack_[0].value.as< ::sqf::parser::sqf::bison::astnode > ()); }
+    { yylhs.value.as< ::sqf::parser::sqf::bison::astnode > () = ::sqf::parser::sqf::bison::astnode{ astkind::EXPU, yystack_[1].value.as< tokenizer::token > () }; yylhs.value.as< ::sqf::parser::sqf::bison::astnode > ().append(std::move(yystack_[0].value.as< ::sqf::parser::sqf::bison::astnode > ())); }
 #line 1520 "parser.tab.cc" // lalr1.cc:859
     break;
 
   case 128:
 #line 299 "parser.y" // lalr1.cc:859
-    { yylhs.value.as< ::sqf::parser::sqf::bison::astnode > () = yystack_[1].value.as< ::sqf::parser::sqf::bison::astnode > (); }
+    { yylhs.value.as< ::sqf::parser::sqf::bison::astnode > () = std::move(yystack_[1].value.as< ::sqf::parser::sqf::bison::astnode > ()); }
 #line 1526 "parser.tab.cc" // lalr1.cc:859
     break;
 
   case 129:
 #line 300 "parser.y" // lalr1.cc:859
-    { yylhs.value.as< ::sqf::parser::sqf::bison::astnode > () = yystack_[0].value.as< ::sqf::parser::sqf::bison::astnode > (); }
+    { yylhs.value.as< ::sqf::parser::sqf::bison::astnode > () = std::move(yystack_[0].value.as< ::sqf::parser::sqf::bison::astnode > ()); }
 #line 1532 "parser.tab.cc" // lalr1.cc:859
     break;
 
